@@ -1,40 +1,43 @@
-"""C13 — the zero-copy decoder agrees with the owned decoder."""
-from ..e1 import Harness
-from . import c01
+"""C13 (leaf-tag clause) — the zero-copy decoder agrees with the owned decoder (E2: MIR -> SMT, stateful interpreter).
+
+CBMC exhausts memory on `decode_borrowed` even for 3-byte inputs (driver/props/c13_e1_experiment.py keeps those harnesses, none of
+which finishes), so only the leaf tags are decided, by executing both copies of each leaf parser from the MIR on the same abstract
+input (driver/props/c13_leaf.py)."""
+from . import c13_leaf
 
 PROP_ID = "C13"
 FEATURE = "c13"
-ENGINE = "E1 kani-cbmc"
-QUICK_MAX_S = 125
-FUNCTIONS = ["erltf::decode_borrowed -> parse_versioned_term_borrowed, parse_term_borrowed and every parse_*_borrowed; BorrowedTerm::to_owned",
-             "erltf::decode on the same buffer", "errors.rs ContextualDecodeError/ParsingContext byte_offset"]
-ASSUMPTIONS = c01.ASSUMPTIONS + ["agreement is decided as a chain through the reference: C01 c01_dec__<shape> fixes the owned decoder's variant and value on the "
-                                 "reference bytes, C13 requires the same of decode_borrowed(..).to_owned() (both decoders in one query do not finish)"]
-OUTSIDE = ["arbitrary byte strings and bit-flip mutations (free-form symbolic bytes are beyond CBMC on this decoder)", "containers deeper than 1"]
-SHAPES = ["int_small", "int_i32", "int_w5", "float", "big3", "atom1", "atom2", "bin0", "bin2", "bit1", "nil", "pid", "port", "ref1", "ref2",
-          "extfun", "tuple0", "tuple1i", "list1", "imp1"]
+ENGINE = "E2 mir-smt (stateful)"
+FUNCTIONS = ["erltf::decoder::parse_X and parse_X_borrowed for X in %s (MIR of the working tree)" % ", ".join(p.replace("parse_", "") for p in c13_leaf.PAIRS)]
+ASSUMPTIONS = [
+    "the input is a slice of symbolic length whose content is unknown except for the fields the parsers read: a value read at a given offset is the "
+    "same symbol in both runs; UTF-8 validity and ASCII-ness of the payload are one shared Boolean each",
+    "nom's be_u*/be_i32/be_f64/take fail exactly when too few bytes remain; per-byte iterator chains over the payload are not executed",
+    "trusted: nightly rustc's MIR, /verif/mir_smt/heapex.py, z3; counterexamples are replayed natively: both decoders on every prefix of a crafted input",
+]
+OUTSIDE = ["container tags (tuples, lists, maps, funs), identifiers, LOCAL_EXT, COMPRESSED, FLOAT_EXT: the recursive parse_term / parse_term_borrowed pair is not "
+           "executed", "equality of the decoded *values* beyond acceptance and the sign handed to BigInt::new (payload bytes are not modelled)",
+           "BorrowedTerm::to_owned", "the byte offset reported on rejection (ParsingContext)"]
 
 
 def bounds(tier):
-    return {"shapes": SHAPES, "inputs": "complete reference encoding; every proper prefix (symbolic cut offset)"}
-
-
-def fn(name, body):
-    return c01.STUBS + "#[cfg_attr(kani, kani::proof)]\npub fn %s() {\n%s\n    vk::reached();\n}\n" % (name, body)
+    return {"inputs": "every input length below 2^40, every value of every field read, both outcomes of UTF-8 validation",
+            "decided": "for each of the %d leaf tags: no pair of paths (owned, zero-copy) with different outcomes (accept / reject / panic) is jointly "
+                       "satisfiable; on jointly accepting paths the sign passed to BigInt::new is the same" % len(c13_leaf.PAIRS)}
 
 
 def generate(tier, seed):
-    src = ["use crate::terms::*;\nuse crate::c13::*;\nuse crate::vk;\n"]
-    hs = []
-    for s in SHAPES:
-        mode = c01.MODES.get(s, (0, 0))
-        bits = 1 if s.startswith("bit") else 0
-        cont = s in ("tuple1i", "list1", "imp1")
-        for kind in ("complete", "truncated"):
-            n = "c13_%s__%s" % (kind, s)
-            src.append(fn(n, "    let (t, r) = %s;\n    %s(&r, %d, %d, %d, %d);\n    vk::leak(t); vk::leak(r);" % (c01.expr(s), kind, mode[0], mode[1], bits, c01.KIND[s])))
-            hs.append(Harness(n, "decode_borrowed on the %s reference encoding of shape %s: (complete) accepted, to_owned() has the variant and value the owned "
-                                 "decoder returns for these bytes (c01_dec__%s); (truncated) rejected with the offset inside the input" % (kind, s, s),
-                              unwind=6, unwindset=c01.UWS + [(r"^c13::", 12)], cap_s=900, cuts=c01.CUTS_NOZ, mem_gb=12,
-                              recursion=[(r"parse_term_from_tag|parse_term$|parse_term_borrowed|to_owned|refetf::(accepts_at|denotes|emit)", 2 if cont else 1)]))
-    return "\n".join(src), hs
+    return "", []
+
+
+def extra_checks(tier, seed):
+    out = []
+    c13_leaf.run(out)
+    return out
+
+
+def replay_case(case):
+    e = case.get("e2") or {}
+    if "agree" in e:
+        return c13_leaf.replay(e["agree"], e["in_len"], e["wire"])
+    return None
